@@ -342,7 +342,7 @@ fn series_vs_closed_forms(rep: &Report, ellipsoids: &[String], tier: Tier, worst
             (1. - es) * (s / (1. - es * s * s) - (1. / (2. * ecc)) * ((1. - ecc * s) / (1. + ecc * s)).ln())
         };
         let qp = q(FRAC_PI_2);
-        let (mut wc, mut wa, mut wm) = (0f64, 0f64, 0f64);
+        let (mut wc, mut wa, mut wm, mut wi) = (0f64, 0f64, 0f64, 0f64);
         for &lat in &lats {
             let phi = lat.to_radians();
             rep.eval(3);
@@ -364,6 +364,20 @@ fn series_vs_closed_forms(rep: &Report, ellipsoids: &[String], tier: Tier, worst
             if !((m - m_q).abs() <= 1e-6) {
                 rep.violation("meridian arc differs from numerical quadrature by more than 1e-6 m", json!({"ellps": ellps, "lat_deg": lat, "library": m, "quadrature": m_q, "difference_m": (m - m_q).abs()}));
             }
+            // ... and the other way round: the latitude reached by the quadrature's meridian arc
+            let back = e.meridian_distance_to_latitude(m_q);
+            wi = wi.max((back - phi).abs());
+            if !((back - phi).abs() <= 1e-11) {
+                rep.violation(
+                    "latitude from meridian distance differs from the inverse of the quadrature by more than 1e-11 rad",
+                    json!({"ellps": ellps, "lat_deg": lat, "meridian_arc_by_quadrature": m_q, "library_latitude_rad": back, "difference_rad": (back - phi).abs(), "difference_m": (back - phi).abs() * ell.a}),
+                );
+            }
+        }
+        {
+            let mut w = worst.lock().unwrap();
+            let en = w.entry("latitude from meridian distance vs quadrature (rad)".into()).or_insert(0.);
+            *en = en.max(wi);
         }
         let mut w = worst.lock().unwrap();
         for (k, v) in [("conformal latitude series vs closed form (rad)", wc), ("authalic latitude series vs closed form (rad)", wa), ("meridian arc vs quadrature (m)", wm)] {
@@ -380,7 +394,7 @@ pub fn run(tier: Tier) -> Report {
               axisswap/unitconvert/adapt mappings; every non-grid catalogue definition through Minimal and Plain), plus series vs closed form / quadrature. \
               distinct_nontrivial = distinct Minimal/Plain result sets + lattice hashes");
     let ellipsoids: Vec<String> = match tier {
-        Tier::Quick => vec!["GRS80".into(), "intl".into(), "bessel".into(), "sphere".into()],
+        Tier::Quick => vec!["GRS80".into(), "intl".into(), "bessel".into(), "sphere".into(), "mprts".into()],
         Tier::Thorough => crate::props::c01::ellipsoid_names(Tier::Thorough).into_iter().filter(|e| catch(|| Ellipsoid::named(e).is_ok()).unwrap_or(false)).collect(),
     };
     rep.set("ellipsoids", json!(ellipsoids));
